@@ -14,3 +14,4 @@ INVARIANTS
   C08_ExtMsg
   C08_PeerType
   C08_ProbesAgree
+  C08_Renegotiated
